@@ -303,6 +303,10 @@ pub mod field;
 pub mod metadata;
 mod parent;
 pub mod span;
+#[cfg(all(tokio_rs_tracing_verif, feature = "std"))]
+#[doc(hidden)]
+#[path = "verif.rs"]
+pub mod __verif;
 
 #[doc(inline)]
 pub use self::{
